@@ -219,6 +219,9 @@ func vfRenderRPC(r *RPC, mid func(*pb.Message) string) string {
 	if len(subs) > 0 {
 		parts = append(parts, "SUB["+strings.Join(subs, ",")+"]")
 	}
+	// the payload order inside one RPC is rendered canonically: an IWANT reply lists its messages in map
+	// iteration order (what split() does to the order is C11's business, on its own inputs)
+	var pubs []string
 	for _, m := range r.GetPublish() {
 		id := ""
 		if mid != nil {
@@ -226,8 +229,10 @@ func vfRenderRPC(r *RPC, mid func(*pb.Message) string) string {
 		} else {
 			id = fmt.Sprintf("%s/%x", vfName(peer.ID(m.GetFrom())), m.GetSeqno())
 		}
-		parts = append(parts, fmt.Sprintf("MSG[%s:%s]", m.GetTopic(), id))
+		pubs = append(pubs, fmt.Sprintf("MSG[%s:%s]", m.GetTopic(), id))
 	}
+	sort.Strings(pubs)
+	parts = append(parts, pubs...)
 	if c := r.GetControl(); c != nil {
 		var g, p, ih, iw, dw []string
 		for _, x := range c.GetGraft() {
